@@ -63,7 +63,7 @@ Record case := {
   c_im : iface_model;
   c_ctor : bool;
   c_beh : list (nat * list value);          (* user function f returns these constants *)
-  c_ops : list op;
+  c_ops : list wop;
   c_obs : list (outcome * list event)
 }.
 
@@ -79,7 +79,7 @@ Fixpoint h_lookup (tbl : list (nat * list value)) (f : nat) : list value :=
 Definition h_beh (tbl : list (nat * list value)) (f : nat) (_ : list value) : list value := h_lookup tbl f.
 
 Definition model_obs (c : case) : list (outcome * list event) :=
-  snd (run_ops h_impl (h_beh (c_beh c)) (c_im c) (new_mock (c_ctor c)) (c_ops c)).
+  snd (wrun h_impl (h_beh (c_beh c)) (c_im c) (new_mock (c_ctor c)) [] (c_ops c)).
 
 Definition check_case (c : case) : bool := list_eqb obs_eqb (model_obs c) (c_obs c).
 
@@ -96,6 +96,6 @@ Definition mkT (id : nat) (iface empty fn err nillable : bool) : sty :=
 Definition mkP (n : str) (T : sty) : param := {| p_name := n; p_ty := T |}.
 Definition mkM (n : str) (ps : list param) (va : bool) (E : sty) (rs : list sty) : msig :=
   {| ms_name := n; ms_params := ps; ms_variadic := va; ms_elem := E; ms_results := rs; ms_visible := [] |}.
-Definition mkC (ms : list msig) (unroll ctor : bool) (beh : list (nat * list value)) (ops : list op)
+Definition mkC (ms : list msig) (unroll ctor : bool) (beh : list (nat * list value)) (ops : list wop)
            (obs : list (outcome * list event)) : case :=
   {| c_im := {| im_methods := ms; im_unroll := unroll |}; c_ctor := ctor; c_beh := beh; c_ops := ops; c_obs := obs |}.
